@@ -52,7 +52,13 @@ DvFamily(ch, pfx, fam, h, val) ==
   LET ms == DvMuts(ch, DvGenuine(ch, h, val)) IN
   {Entry(pfx, [ms[i] EXCEPT !.key = "k:" \o pfx \o ms[i].mut], h * 10000 + fam * 100 + i) : i \in DOMAIN ms}
 
-Pair(ch, pfx, h, val) == [h |-> h, val |-> val, blkA |-> "b1", blkB |-> "b2", dv |-> pfx \o "genuine"]
+Pair(ch, pfx, h, val) ==
+  LET g == DvGenuine(ch, h, val)
+      nx == ValsAt(ch, h + 1)
+  IN [h |-> h, val |-> val, blkA |-> "b1", blkB |-> "b2", dv |-> pfx \o "genuine",
+      late |-> IF val \notin DOMAIN nx THEN "nil"
+               ELSE IF <<nx[val], Total(nx)>> # <<g.power, g.total>> THEN pfx \o "valsnext"
+               ELSE pfx \o "genuine"]
 
 \* ------------------------------------------------------------------ light client attacks
 Phantom == "n5"
